@@ -181,6 +181,19 @@ func runC19(c *ctx) {
 			}
 		}
 	}
+	// spellings at the edge of the grammar (accepted or not, the same alone and in a sequence)
+	edge := []string{"S1F1 H->E Name.", "S1F1 W Name.", "S1F1 Name.\n", "\ufeffS1F1 W .", "\ufeffS1F1 H->E <L> .\n", "S1F1 W H->E n <L>.", "S1F1 W.", "S1F1.", "S1F1 W <U1 1>.S"}
+	plain := []string{"S2F2 .", "S2F1 W H<-E <U1 2> .", "S2F2 H->E other <L> .", "s2f2 <B 1>."}
+	for _, a := range edge {
+		for _, b := range plain {
+			for _, sep := range []string{"", " ", "\n", " // c\n"} {
+				c.Class("edge-spellings")
+				c19Eval(c, c19Case{Parts: []string{a, b}, Seps: []string{sep, ""}})
+				c19Eval(c, c19Case{Parts: []string{b, a}, Seps: []string{sep, ""}})
+				c19Eval(c, c19Case{Parts: []string{b, a, b}, Seps: []string{sep, sep, ""}})
+			}
+		}
+	}
 	// a message with exactly n variables, then messages that reuse each of its names in every kind of place
 	for n := 1; n <= 20; n++ {
 		var sb strings.Builder
@@ -213,7 +226,7 @@ func runC19(c *ctx) {
 			}
 		}
 	}
-	c.Required = []string{"n-variables-then-reuse", "parts=2", "parts=3", "parts=4", "shared-variable-names", "ellipses-in-several-parts", "with-warnings", "header-kind-pairs"}
+	c.Required = []string{"edge-spellings", "n-variables-then-reuse", "parts=2", "parts=3", "parts=4", "shared-variable-names", "ellipses-in-several-parts", "with-warnings", "header-kind-pairs"}
 }
 
 func replayC19(c *ctx, raw json.RawMessage) {
